@@ -6,7 +6,8 @@
 #   MUT_MODE=repo      the patch is applied to /repo itself (git apply ... git checkout -- .), as the task brief describes
 set -u
 PATCH="$(realpath "$1")"; ID="$2"; TIER="${3:-quick}"
-EV="/verif/evidence/$ID.json"; BK="$(mktemp)"; [ -f "$EV" ] && cp "$EV" "$BK"
+ROOT="$(cd "$(dirname "$0")/.." && pwd)"   # /verif, or a snapshot copy of it
+EV="$ROOT/evidence/$ID.json"; BK="$(mktemp)"; [ -f "$EV" ] && cp "$EV" "$BK"
 if [ "${MUT_MODE:-worktree}" = "repo" ]; then
   cd /repo || exit 2
   if ! git diff --quiet; then echo "/repo has uncommitted changes; refusing" >&2; exit 2; fi
@@ -19,5 +20,5 @@ else
   git -C "$WT" apply "$PATCH" || { echo "patch does not apply" >&2; exit 2; }
   export PYTHONPATH="$WT"
 fi
-cd /verif && ./check "$ID" --tier "$TIER" 2>&1 | grep -E "^(VIOLATION|KNOWN-FINDING|NOTE|\[C|MACHINERY|  detail)" | cut -c1-400 | head -${LINES_MAX:-12}
+cd "$ROOT" && ./check "$ID" --tier "$TIER" 2>&1 | grep -E "^(VIOLATION|KNOWN-FINDING|NOTE|\[C|MACHINERY|  detail)" | cut -c1-400 | head -${LINES_MAX:-12}
 echo "exit=${PIPESTATUS[0]}"
